@@ -33,7 +33,7 @@ def mix(F, R):
         tails = []
         for bb, si, s in b.stmts():
             if s['k'] == 'assign' and s['lhs']['p'] and s['lhs']['p'][0][0] == 'deref':
-                d = describe_rv(b, s['rv'], depth=14, at=bb)
+                d = describe_rv(b, s['rv'], depth=24, at=bb)
                 if d.startswith('<frame::Frame as std::ops::Add>::add(') and 'sqrt(' in d:
                     tails.append((bb, s, d))
         if not R.check(len(tails) == 1, 'B.C13.mix', e + ':tail-site', '%d wet/dry stores found in %s' % (len(tails), e)):
